@@ -89,7 +89,6 @@ def run(case, out):
     out.fault("value_hash" if p.get("hash") else "hashseed_only")
     le = ref.lang_empty_stack(N)
     lf = ref.lang_final_state(N)
-    ple = {_plain(w) for w in le}        # the same words with every symbol value printed (what the grammar side compares)
     out.nontrivial = len(le) >= 2 or len(lf) >= 2
     if not p["finals"]:
         out.probe("no_final_states")
@@ -110,14 +109,14 @@ def run(case, out):
     g = out.call("to_cfg", GP.build(p).to_cfg)
     if g is not FAILED:
         rg = GC.extract(g)
-        got = {tuple(k.split(":", 1)[1] for k in w) for w in rg.words_upto(N)}
-        _diff(out, "to_cfg:language", got, ple)
+        got = {tuple(_pk(k) for k in w) for w in rg.words_upto(N)}
+        _diff(out, "to_cfg:language", got, le)
         # the library's own membership on the produced grammar
-        gl = out.call("to_cfg.contains", lambda: {tuple(str(x) for x in w)
+        gl = out.call("to_cfg.contains", lambda: {tuple(GP._k(x) for x in w)
                                                   for w in _words([GP.iv(p, a) for a in p["inputs"]], 3)
                                                   if g.contains(list(w))})
         if gl is not FAILED:
-            _diff(out, "to_cfg:contains-of-result", gl, {w for w in ple if len(w) <= 3})
+            _diff(out, "to_cfg:contains-of-result", gl, {w for w in le if len(w) <= 3})
     f = out.call("to_final_state", GP.build(p).to_final_state)
     if f is not FAILED:
         _diff(out, "to_final_state:language", GP.extract(f).lang_final_state(N), le)
@@ -141,13 +140,17 @@ def run(case, out):
         g2 = out.call(first + ".to_cfg", y.to_cfg)
         if g2 is not FAILED and len(ry.states) <= 4:
             rg2 = GC.extract(g2)
-            got2 = {tuple(k.split(":", 1)[1] for k in w) for w in rg2.words_upto(N)}
-            _diff(out, first + ".to_cfg:language", got2, {_plain(w) for w in ry.lang_empty_stack(N)})
+            got2 = {tuple(_pk(k) for k in w) for w in rg2.words_upto(N)}
+            _diff(out, first + ".to_cfg:language", got2, ry.lang_empty_stack(N))
 
 
-def _plain(w):
-    """a word of PDA symbol keys with int symbols printed (key "int:0" -> "0"), as the grammar side prints them"""
-    return tuple(x.split(":", 1)[1] if x.startswith("int:") else x for x in w)
+def _pk(k):
+    """a grammar-side value key ("s:a", "i:0") in the spelling of the PDA-side keys ("a", "int:0"): exact, type kept"""
+    if k.startswith("s:"):
+        return k[2:]
+    if k.startswith("i:"):
+        return "int:" + k[2:]
+    return k
 
 
 def _words(alpha, n):
